@@ -24,7 +24,7 @@ ASSUMPTIONS = ["CPython audit events (open, os.mkdir, os.rename, os.remove, os.r
                "secondary evidence; the tree snapshot is the ground truth",
                "access times are not part of 'modified'"]
 TIMEOUT = 300
-VARIANTS = [(flag, cache, meta) for flag in ("arg", "config") for cache in (None, "4KiB", "1MiB")
+VARIANTS = [(flag, cache, meta) for flag in ("arg", "config", "arg_over_dump") for cache in (None, "4KiB", "1MiB")
             for meta in (False, True)]
 
 
@@ -57,6 +57,11 @@ def open_ro(sc, variant, writable=False):
     if flag == "arg":
         return FilesystemStorageBackend(path=sc.path("data"), metadata_path=mpath, memory_cache_mb=mb,
                                         read_only=True)
+    if flag == "arg_over_dump":
+        # the store is re-opened read-only from the writable backend's own description (which spells out
+        # "readonly": false): the explicit argument wins
+        desc = FilesystemStorageBackend(path=sc.path("data"), metadata_path=mpath).to_dict()
+        return FilesystemStorageBackend(config=dict(desc), memory_cache_mb=mb, read_only=True)
     cfg = {"type": "filesystem", "path": sc.path("data"), "readonly": True}
     if mpath:
         cfg["metadata_path"] = mpath
@@ -210,7 +215,12 @@ def run_function_level(sc, case, rng, out, roots_unused):
     ffuncs.produce.put_metadata("log", b"hello", "a")
     roots = [froot] + ([mroot] if mroot else [])
     snap = {r: fsobs.snapshot(r) for r in roots}
-    ro = env.fs_backend(froot, metadata_path=mroot, cache_mb=mb, read_only=True)
+    if flag == "arg_over_dump":
+        from twosigma.memento.storage_filesystem import FilesystemStorageBackend
+
+        ro = FilesystemStorageBackend(config=dict(w.to_dict()), memory_cache_mb=mb, read_only=True)
+    else:
+        ro = env.fs_backend(froot, metadata_path=mroot, cache_mb=mb, read_only=True)
     env.set_env(sc.path("envr"), default_storage=ro)
     audit = fsobs.AuditLog(roots)
     audit.start()
